@@ -32,8 +32,9 @@ def work(task):
     c = cs[i]
     fs = c.program.functors()
     if len({f.base for f in fs}) < len(fs): h.stats['twice_applied'] += 1
+    origin = {}
     try:
-      rules = functor_model.expand(c.program)
+      rules = functor_model.expand(c.program, origin)
     except functor_model.FunctorArgumentError as e:
       # must be rejected with FunctorError
       h.stats['programs'] += 1; h.stats['expected_functor_errors'] += 1; h.stats['comparisons'] += 1
@@ -43,6 +44,18 @@ def work(task):
       if not (out[0] == 'diag' and out[1] == 'FunctorError'):
         h.add_viol('functor-argument-not-rejected', 'model: %s; implementation: %s | %s' % (e, out[:2] if out[0] != 'script' else 'compiled', semcheck.oneline(c.text())), c)
       continue
+    # @OrderBy/@Limit given as annotations: a clone inherits the annotations of the predicate it was made from
+    import re as _re
+    ol = {}
+    for st in c.program.stmts:
+      if isinstance(st, lang.Ann):
+        m = _re.match(r'@OrderBy\((\w+), (.*)\);', st.text)
+        if m: ol.setdefault(m.group(1), [None, None])[0] = [x.strip().strip('"') for x in m.group(2).split(',')]
+        m = _re.match(r'@Limit\((\w+), (\d+)\);', st.text)
+        if m: ol.setdefault(m.group(1), [None, None])[1] = int(m.group(2))
+    for new, old in origin.items():
+      if old in ol: ol[new] = ol[old]
+    c.ol = {k: tuple(v) for k, v in ol.items()} or None
     h.run_case(c, None, prepared_rules=rules)
   res = h.result(); h.close()
   for v in res['viol']:
